@@ -1,6 +1,7 @@
 import RsModel.Model.Combined
 import RsModel.Lemmas.PosComb
 import RsModel.Lemmas.CombInner
+import RsModel.Lemmas.ModeLeaves
 /-!
 # C09 — combined source maps compose outer and inner attribution
 (the pass-through and removal branches; the composition through the inner map is tied by correspondence)
@@ -146,5 +147,137 @@ theorem c09_search_is_lookup (st : CombSt) (ms : List Mapping) (hsort : ms.Pairw
         ∧ lookupGo L C none ms = some ((ms.filter fun m => m.gl == L).getD idx default).orig
     | none => lookupGo L C none ms = none :=
   findInner_lookup st ms hsort L C hL hseg hlen
+
+
+/-- **C09, per outer chunk, in terms of the inner map itself.**  Let the inner line data be what `combInnerEv` recorded from the
+stream of the inner source (text `Tin`, ASCII, map `Min` sorted and inside `Tin`, columns = true).  For an outer chunk that
+points into the inner source at `(o.line, o.col)` — the position of a character of `Tin`:
+* if the inner map assigns `o'` to that position (greatest segment at or before it on that line), the chunk is delivered with the
+  same text and generated position, attributed to `o'`'s original line and to `o'`'s column or that column plus the offset from
+  the covering inner segment's start (at or before `o.col`);
+* if the inner map assigns nothing there, the search finds no mapped segment (the chunk then takes the "no inner mapping" path:
+  the inner source itself, or unmapped when removal is requested — `c09_no_inner_removed`). -/
+theorem c09_compose_inner_map (cfg : CombCfg) (st : CombSt) (Tin : Text) (Min : SMap) (text : Option Text) (m : Mapping) (o : Orig)
+    (ha : IsAscii Tin) (hl : Tin.length ≤ USIZE_MAX) (hs : sortedFrom 1 0 (decode Min.mappings))
+    (hsegok : ∀ x ∈ decode Min.mappings, SegOK (splitLines Tin) (adv startPos Tin).line (adv startPos Tin).col x)
+    (hrec : ∀ L, 1 ≤ L → segsAt st.lineData L = ((chunkMs (streamSM Tin Min ⟨true, false⟩).evs).filter fun x => x.gl == L).map toSeg)
+    (ho : m.orig = some o) (hsrc : (o.src : Int) = st.innerSourceIndex)
+    (j : Nat) (hj : j < Tin.length) (hpos : adv startPos (Tin.take j) = ⟨o.line, o.col⟩) :
+    (∀ o', lookupCols (decode Min.mappings) o.line o.col = some o' →
+      ∃ pre out g, (combOnChunk cfg st text m).2 = pre ++ [Ev.chunk text ⟨m.gl, m.gc, out⟩] ∧ evsKeys pre = [] ∧ g ≤ o.col
+        ∧ ∀ y, out = some y → y.line = o'.line ∧ (y.col = o'.col ∨ y.col = o'.col + (o.col - g)))
+    ∧ (lookupCols (decode Min.mappings) o.line o.col = none →
+        ∀ idx, findInner st o.line o.col = some idx → ((st.lineData.getD (o.line - 1) {}).segs.getD idx default).src < 0) := by
+  -- the inner stream and its chunk mappings
+  have hin : MapInside Tin Min := fun x hx => (hsegok x hx).1
+  have hp : PosOK (streamSM Tin Min ⟨true, false⟩) := streamSM_posOK Tin Min true ha hl (fun _ => hin)
+  have hTL := streamSM_tl Tin Min true
+  have hsorted := chunkMs_sorted _ [] hp.1 hTL
+  have hpw := ((sortedFrom_iff _ _ _).1 hsorted).2
+  have hlk0 := streamSMFull_lookEq Tin Min ha hl hs hsegok j hj
+  rw [hpos] at hlk0
+  have hcm : lookupCols (chunkMs (streamSMFull Tin Min).evs) o.line o.col = lookupCols (decode Min.mappings) o.line o.col := hlk0
+  simp only [streamSM] at hrec hpw
+  have hL : 1 ≤ o.line := by
+    have e1 : startPos.line = 1 := rfl
+    have := adv_ge (Tin.take j) startPos
+    rw [hpos] at this
+    rcases this with g | g <;> simp only at g <;> omega
+  have hlen : st.lineData.length < o.line → ((chunkMs (streamSMFull Tin Min).evs).filter fun x => x.gl == o.line) = [] := by
+    intro hlt
+    have := hrec o.line hL
+    unfold segsAt at this
+    rw [List.getD_eq_getElem?_getD, List.getElem?_eq_none (by omega)] at this
+    simp only [Option.getD_none] at this
+    exact List.map_eq_nil_iff.1 this.symm
+  have hfind := findInner_lookup st (chunkMs (streamSMFull Tin Min).evs) hpw o.line o.col hL (hrec o.line hL) hlen
+  constructor
+  · intro o' ho'
+    cases hf : findInner st o.line o.col with
+    | none =>
+      rw [hf] at hfind
+      simp only at hfind
+      have : lookupCols (chunkMs (streamSMFull Tin Min).evs) o.line o.col = none := by unfold lookupCols; rw [hfind]; rfl
+      rw [← hcm, this] at ho'
+      cases ho'
+    | some idx =>
+      rw [hf] at hfind
+      obtain ⟨hidx, hsegeq, hlook⟩ := hfind
+      have hlk : lookupCols (chunkMs (streamSMFull Tin Min).evs) o.line o.col
+          = (((chunkMs (streamSMFull Tin Min).evs).filter fun x => x.gl == o.line).getD idx default).orig := by
+        unfold lookupCols; rw [hlook]; rfl
+      rw [← hcm, hlk] at ho'
+      -- the segment found is the recorded form of a mapping whose original location is `o'`
+      have hdefeq : (st.lineData.getD (o.line - 1) {}).segs.getD idx default
+          = toSeg (((chunkMs (streamSMFull Tin Min).evs).filter fun x => x.gl == o.line).getD idx default) := hsegeq
+      have hmapped : ((st.lineData.getD (o.line - 1) {}).segs.getD idx default).src ≥ 0 := by
+        rw [hdefeq]; simp only [toSeg, ho']; omega
+      obtain ⟨pre, out, e1, e2, e3⟩ := c09_compose_chunk cfg st text m o ho hsrc idx hf hmapped
+      refine ⟨pre, out, (((chunkMs (streamSMFull Tin Min).evs).filter fun x => x.gl == o.line).getD idx default).gc, e1, e2, ?_, ?_⟩
+      · -- the covering segment starts at or before the column
+        have hmem : ((chunkMs (streamSMFull Tin Min).evs).filter fun x => x.gl == o.line).getD idx default ∈ (chunkMs (streamSMFull Tin Min).evs).filter fun x => x.gl == o.line := by
+          rw [List.getD_eq_getElem?_getD, List.getElem?_eq_getElem hidx]; exact List.getElem_mem hidx
+        -- it is the mapping the lookup selected, which matches `(o.line, o.col)`
+        have hsel : ∀ (ms : List Mapping) (acc : Option (Option Orig)) (x : Mapping), lookupGo o.line o.col acc ms = some x.orig → True := fun _ _ _ _ => trivial
+        -- use the bisection spec through `findInner_lookup`'s first component: index below the count of segments with gc ≤ col
+        have hfs := (c09_findInner_spec st o.line o.col (by omega) (by
+            rcases Nat.lt_or_ge st.lineData.length o.line with h | h
+            · have := hlen h; rw [this] at hidx; simp at hidx
+            · simpa using h) (by
+            have := hrec o.line hL
+            unfold segsAt at this
+            have e : (Int.toNat (o.line : Int)) - 1 = o.line - 1 := by simp
+            rw [e]
+            have hd : (default : LineData) = {} := rfl
+            rw [hd, this]
+            exact filter_sorted _ _ hpw)).1 idx hf
+        have hgc := hfs.2.1
+        have e : (Int.toNat (o.line : Int)) - 1 = o.line - 1 := by simp
+        rw [e] at hgc
+        have hd : (default : LineData) = {} := rfl
+        rw [hd, hdefeq] at hgc
+        simp only [toSeg] at hgc
+        exact Int.ofNat_le.1 hgc
+      · intro y hy
+        obtain ⟨h1, h2⟩ := e3 y hy
+        rw [hdefeq] at h1 h2
+        simp only [toSeg, ho'] at h1 h2
+        refine ⟨by simpa using h1, ?_⟩
+        rcases h2 with h2 | h2
+        · exact Or.inl (by simpa using h2)
+        · refine Or.inr ?_
+          rw [h2]
+          have hg : (((chunkMs (streamSMFull Tin Min).evs).filter fun x => x.gl == o.line).getD idx default).gc ≤ o.col := by
+            have hfs := (c09_findInner_spec st o.line o.col (by omega) (by
+                rcases Nat.lt_or_ge st.lineData.length o.line with h | h
+                · have := hlen h; rw [this] at hidx; simp at hidx
+                · simpa using h) (by
+                have := hrec o.line hL
+                unfold segsAt at this
+                have e : (Int.toNat (o.line : Int)) - 1 = o.line - 1 := by simp
+                rw [e]
+                have hd : (default : LineData) = {} := rfl
+                rw [hd, this]
+                exact filter_sorted _ _ hpw)).1 idx hf
+            have hgc := hfs.2.1
+            have e : (Int.toNat (o.line : Int)) - 1 = o.line - 1 := by simp
+            rw [e] at hgc
+            have hd : (default : LineData) = {} := rfl
+            rw [hd, hdefeq] at hgc
+            simp only [toSeg] at hgc
+            exact Int.ofNat_le.1 hgc
+          omega
+  · intro hnone idx hf
+    rw [hf] at hfind
+    obtain ⟨_, hsegeq, hlook⟩ := hfind
+    have hlk : lookupCols (chunkMs (streamSMFull Tin Min).evs) o.line o.col
+        = (((chunkMs (streamSMFull Tin Min).evs).filter fun x => x.gl == o.line).getD idx default).orig := by
+      unfold lookupCols; rw [hlook]; rfl
+    rw [← hcm, hlk] at hnone
+    have hdefeq : (st.lineData.getD (o.line - 1) {}).segs.getD idx default
+        = toSeg (((chunkMs (streamSMFull Tin Min).evs).filter fun x => x.gl == o.line).getD idx default) := hsegeq
+    rw [hdefeq]
+    simp only [toSeg, hnone]
+    omega
 
 end Rs
